@@ -50,7 +50,20 @@ fn warm_up() {
         };
         let env = w.build()?;
         let f = ast::F::hyb("!", "x", None, ast::F::un("AX", ast::F::var("x")));
-        evalx::alone(&env, &f).map(|_| ())
+        evalx::alone(&env, &f).map(|_| ())?;
+        // every model format, an archive round trip, the extended parser
+        let sbml = env.bn.to_sbml(None);
+        biodivine_lib_param_bn::BooleanNetwork::try_from_sbml(&sbml).map(|_| ())?;
+        let bnet = env.bn.to_bnet(true)?;
+        biodivine_lib_param_bn::BooleanNetwork::try_from_bnet(&bnet).map(|_| ())?;
+        let path = std::env::temp_dir().join(format!("hctl-sim-warm-{}.zip", std::process::id()));
+        let p = path.to_string_lossy().to_string();
+        let mut m = std::collections::HashMap::new();
+        m.insert("w".to_string(), env.graph.mk_unit_colored_vertices());
+        biodivine_hctl_model_checker::generate_output::build_result_archive(m, &p, &env.bn.to_string(), vec!["true".to_string()]).map_err(|e| e.to_string())?;
+        let loaded = biodivine_hctl_model_checker::load_inputs::load_bdd_bundle(&p, env.graph.symbolic_context())?;
+        let _ = std::fs::remove_file(&path);
+        biodivine_hctl_model_checker::model_checking::model_check_extended_formula_dirty("3{x} in %w%: @{x}: (AX %w%)", &env.graph, &loaded).map(|_| ())
     });
     if !matches!(r, exec::Outcome::Ok(())) {
         eprintln!("harness error: warm-up failed: {}", r.describe());
@@ -84,6 +97,8 @@ fn cmd_run(args: &[String]) -> i32 {
     let out_path = arg(args, "--out").expect("--out");
     let replay_dir = arg(args, "--replay-dir").expect("--replay-dir").to_string();
     let sandbox = arg(args, "--sandbox").expect("--sandbox").to_string();
+    let _ = std::fs::create_dir_all(&sandbox);
+    let sandbox = std::fs::canonicalize(&sandbox).map(|p| p.to_string_lossy().to_string()).unwrap_or(sandbox);
     let min_budget = Duration::from_millis(arg_u64(args, "--minimise-ms", 60_000));
     let keep_going = args.iter().any(|a| a == "--keep-going");
     // optional: every run uses this network (a bundled benchmark model) instead of a generated one
@@ -137,6 +152,11 @@ fn cmd_run(args: &[String]) -> i32 {
                 (case.clone(), rep.clone())
             };
             let fv = final_rep.violation.clone().unwrap();
+            if std::env::var("VERIF_DEBUG_EVENTS").is_ok() {
+                for e in &final_rep.events {
+                    eprintln!("final event: {e}");
+                }
+            }
             let _ = std::fs::create_dir_all(&replay_dir);
             let path = format!("{replay_dir}/{prop}-{seed}-{idx}.json");
             let file = json!({
@@ -167,6 +187,7 @@ fn cmd_replay(args: &[String]) -> i32 {
     let path = &args[0];
     let sandbox = arg(args, "--sandbox").map(|s| s.to_string()).unwrap_or_else(|| "/verif/.work/replay".to_string());
     let _ = std::fs::create_dir_all(&sandbox);
+    let sandbox = std::fs::canonicalize(&sandbox).map(|p| p.to_string_lossy().to_string()).unwrap_or(sandbox);
     let text = match std::fs::read_to_string(path) {
         Ok(t) => t,
         Err(e) => {
@@ -244,6 +265,9 @@ fn main() {
     if args[0] == "save-child" {
         // crash child of engine A: hash keys, clock and fault plan come from the environment
         std::process::exit(c16::save_child_main(args.get(1).map(|s| s.as_str()).unwrap_or("")));
+    }
+    if args[0] == "load-child" {
+        std::process::exit(c16::load_child_main(args.get(1).map(|s| s.as_str()).unwrap_or("")));
     }
     exec::install_panic_hook();
     warm_up();
